@@ -144,6 +144,26 @@ impl E {
     pub fn any(&self, p: &dyn Fn(&E) -> bool) -> bool {
         p(self) || self.children().iter().any(|c| c.any(p))
     }
+    /// the same tree with every variable name passed through `f` (binders are not touched)
+    pub fn map_vars(&self, f: &dyn Fn(&str) -> String) -> E {
+        let m = |e: &E| Box::new(e.map_vars(f));
+        match self {
+            E::Lit(_) | E::Raw(_) => self.clone(),
+            E::Var(n) => E::Var(f(n)),
+            E::Not(a) => E::Not(m(a)),
+            E::Neg(a) => E::Neg(m(a)),
+            E::Select(a, n) => E::Select(m(a), n.clone()),
+            E::Has(a, n) => E::Has(m(a), n.clone()),
+            E::Bin(op, a, c) => E::Bin(*op, m(a), m(c)),
+            E::Index(a, c) => E::Index(m(a), m(c)),
+            E::Cond(a, c, d) => E::Cond(m(a), m(c), m(d)),
+            E::List(xs) => E::List(xs.iter().map(|x| x.map_vars(f)).collect()),
+            E::Map(es) => E::Map(es.iter().map(|(k, v)| (k.map_vars(f), v.map_vars(f))).collect()),
+            E::Call(n, r, args) => E::Call(n.clone(), r.as_ref().map(|x| m(x)), args.iter().map(|x| x.map_vars(f)).collect()),
+            E::Macro(mac, r, v, body) => E::Macro(*mac, m(r), v.clone(), body.iter().map(|x| x.map_vars(f)).collect()),
+            E::Struct(n, fs) => E::Struct(n.clone(), fs.iter().map(|(k, v)| (k.clone(), v.map_vars(f))).collect()),
+        }
+    }
     pub fn count(&self, p: &dyn Fn(&E) -> bool) -> usize {
         (if p(self) { 1 } else { 0 }) + self.children().iter().map(|c| c.count(p)).sum::<usize>()
     }
